@@ -728,3 +728,259 @@ def _tuple_record_class(tree, cname, fields, defaults, params):
     if any(isinstance(x, ast.Name) and x.id == cname for n in tree.body if n is not cls for x in ast.walk(n)):
         raise _Skip
     tree.body.remove(cls)
+
+
+# ------------------------------------------------------------------------------------------------ private base classes / mixins
+def _c3(name, bases_of, memo=None):
+    """C3 linearisation over the classes of this module; a base that is not a class of the module is a leaf named by its text"""
+    memo = {} if memo is None else memo
+    if name in memo:
+        return memo[name]
+    bases = bases_of.get(name)
+    if bases is None:
+        return [name]
+    seqs = [list(_c3(b, bases_of, memo)) for b in bases] + [list(bases)]
+    out = [name]
+    while any(seqs):
+        seqs = [s for s in seqs if s]
+        for s in seqs:
+            h = s[0]
+            if not any(h in t[1:] for t in seqs):
+                break
+        else:
+            raise _Skip
+        out.append(h)
+        for s in seqs:
+            if s and s[0] == h:
+                del s[0]
+    memo[name] = out
+    return out
+
+
+def flatten_private_bases(tree):
+    """class C(_P, Base): ...      with _P a private class of this module that is only ever used as a base class
+       ->  class C(Base): <own members> + <the members C inherits from _P>
+    The private bases must come right after C in C's MRO (so their members win over everything that follows, as before).  A method of _P that C overrides and reaches
+    through super() is kept under the private name _P__name and the super() call becomes self._P__name(...).  Class-level constants with private names that nothing
+    assigns are substituted into the methods (self._switch -> "gradient__")."""
+    classes = {n.name: n for n in tree.body if isinstance(n, ast.ClassDef)}
+    if not classes:
+        return []
+    bases_of = {}
+    for name, c in classes.items():
+        bs = []
+        for b in c.bases:
+            if isinstance(b, ast.Name) and b.id == 'object':
+                continue
+            bs.append(b.id if isinstance(b, ast.Name) and b.id in classes else '<%s>' % ast.unparse(b))
+        bases_of[name] = bs
+    # private classes used only as bases
+    cand = set()
+    for name, c in classes.items():
+        if not (name.startswith('_') and not name.startswith('__')) or c.decorator_list or c.keywords:
+            continue
+        if any(isinstance(st, ast.FunctionDef) and st.name in ('__init_subclass__', '__new__', '__class_getitem__', '__set_name__') for st in c.body):
+            continue
+        ok = True
+        for st in c.body:
+            if _docstring(st) or isinstance(st, ast.Pass) or isinstance(st, ast.FunctionDef):
+                if isinstance(st, ast.FunctionDef) and any(ast.unparse(d) not in ('property', 'staticmethod', 'classmethod') and not ast.unparse(d).endswith('.setter') for d in st.decorator_list):
+                    ok = False
+                continue
+            if isinstance(st, ast.Assign) and len(st.targets) == 1 and isinstance(st.targets[0], ast.Name):
+                if st.targets[0].id == '__slots__' and not (isinstance(st.value, (ast.Tuple, ast.List)) and not st.value.elts):
+                    ok = False
+                continue
+            if isinstance(st, ast.AnnAssign) and isinstance(st.target, ast.Name):
+                continue
+            ok = False
+        if not ok:
+            continue
+        refs_ok = True
+        parents = {}
+        for x in ast.walk(tree):
+            for ch in ast.iter_child_nodes(x):
+                parents[id(ch)] = x
+        for x in ast.walk(tree):
+            if isinstance(x, ast.Name) and x.id == name:
+                par = parents.get(id(x))
+                if isinstance(par, ast.ClassDef) and x in par.bases:
+                    continue
+                if isinstance(par, ast.Call) and isinstance(par.func, ast.Name) and par.func.id == 'super' and par.args and par.args[0] is x:
+                    continue
+                refs_ok = False
+        if refs_ok and any(name in bs for bs in bases_of.values()):
+            cand.add(name)
+    if not cand:
+        return []
+    done = set()
+    memo = {}
+    for name, c in list(classes.items()):
+        if name in cand:
+            continue
+        try:
+            mro = _c3(name, bases_of, memo)
+        except _Skip:
+            continue
+        prefix = []
+        for k in mro[1:]:
+            if k in cand:
+                prefix.append(k)
+            else:
+                break
+        if not prefix:
+            continue
+        if any(k in cand for k in mro[1 + len(prefix):]):
+            continue            # a private base behind a non-private one: its members do not have priority, leave everything
+        try:
+            _flatten_into(tree, c, [classes[k] for k in prefix], mro, classes)
+        except _Skip:
+            continue
+        done |= set(prefix)
+    # drop private bases nobody references any more
+    removed = []
+    for k in sorted(done):
+        if not any(isinstance(x, ast.Name) and x.id == k for n in tree.body if n is not classes[k] for x in ast.walk(n)):
+            tree.body.remove(classes[k])
+            removed.append(k)
+    if done:
+        ast.fix_missing_locations(tree)
+    return removed
+
+
+def _members(c):
+    out = {}
+    for st in c.body:
+        if isinstance(st, ast.FunctionDef):
+            key = st.name
+            if any(ast.unparse(d).endswith('.setter') for d in st.decorator_list):
+                key = st.name + '.setter'
+            out[key] = st
+        elif isinstance(st, ast.Assign) and len(st.targets) == 1 and isinstance(st.targets[0], ast.Name):
+            out[st.targets[0].id] = st
+        elif isinstance(st, ast.AnnAssign) and isinstance(st.target, ast.Name):
+            out[st.target.id] = st
+    return out
+
+
+def _super_calls(fn, owner_name):
+    """[(Call node of super().m(...), m)] in fn, written as super() or super(Owner, self)"""
+    out = []
+    slf = fn.args.args[0].arg if fn.args.args else None
+    for x in ast.walk(fn):
+        if isinstance(x, ast.Call) and isinstance(x.func, ast.Attribute) and isinstance(x.func.value, ast.Call) and isinstance(x.func.value.func, ast.Name) \
+                and x.func.value.func.id == 'super':
+            a = x.func.value.args
+            if not a or (len(a) == 2 and isinstance(a[0], ast.Name) and a[0].id == owner_name and isinstance(a[1], ast.Name) and a[1].id == slf):
+                out.append((x, x.func.attr))
+            else:
+                raise _Skip
+        elif isinstance(x, ast.Call) and isinstance(x.func, ast.Name) and x.func.id == 'super':
+            par_ok = any(isinstance(y, ast.Attribute) and y.value is x for y in ast.walk(fn))
+            if not par_ok:
+                raise _Skip
+    return out
+
+
+def _flatten_into(tree, c, privs, mro, classes):
+    own = _members(c)
+    chain = [c] + privs                 # C and its private bases in MRO order
+    names = [k.name for k in chain]
+    provided = [ _members(k) for k in chain ]
+    new_members = []
+    renamed = {}                        # (class name, method) -> private copy name
+
+    def next_provider(idx, m):
+        for j in range(idx + 1, len(chain)):
+            if m in provided[j]:
+                return j
+        return None
+    # super() calls inside the chain
+    work = [copy.deepcopy(k) for k in chain]
+    wprov = [_members(k) for k in work]
+    for idx, k in enumerate(work):
+        for key, st in wprov[idx].items():
+            if not isinstance(st, ast.FunctionDef):
+                continue
+            for call, m in _super_calls(st, chain[idx].name):
+                j = next_provider(idx, m)
+                if j is None:
+                    # goes to the remaining bases: for C itself that is still what super() means; for a private base the call moves into C, where super() now
+                    # starts behind C - the same remaining bases (the private prefix contributes nothing for m)
+                    if idx > 0:
+                        if m == '__init__' and not [b for b in mro[len(chain):] if b != 'object']:
+                            # object.__init__(): nothing
+                            if call.args or call.keywords:
+                                raise _Skip
+                            call.func = ast.Name(id='__devirt_noop', ctx=ast.Load())
+                            continue
+                        call.func.value = ast.Call(func=ast.Name(id='super', ctx=ast.Load()), args=[], keywords=[])
+                    continue
+                tgt = wprov[j][m]
+                if not isinstance(tgt, ast.FunctionDef) or tgt.decorator_list:
+                    raise _Skip
+                nm = '%s__%s' % (chain[j].name, m.strip('_') if m.startswith('__') else m)
+                renamed[(j, m)] = nm
+                slf = st.args.args[0].arg
+                call.func = ast.Attribute(value=ast.Name(id=slf, ctx=ast.Load()), attr=nm, ctx=ast.Load())
+    # merge: first definition in MRO order wins; shadowed methods that are reached through super() are kept under their private name
+    seen = set(wprov[0])
+    body = list(work[0].body)
+    for idx in range(1, len(work)):
+        for key, st in wprov[idx].items():
+            if (idx, key) in renamed:
+                cp = copy.deepcopy(st)
+                cp.name = renamed[(idx, key)]
+                body.append(cp)
+                if key in seen:
+                    continue
+            if key in seen:
+                continue
+            seen.add(key)
+            body.append(st)
+    for (j, m), nm in renamed.items():
+        if j == 0:
+            raise _Skip
+    # `__devirt_noop()` statements vanish
+    class Z(ast.NodeTransformer):
+        def visit_Expr(self, n):
+            if isinstance(n.value, ast.Call) and isinstance(n.value.func, ast.Name) and n.value.func.id == '__devirt_noop':
+                return ast.copy_location(ast.Pass(), n)
+            return n
+    newc = work[0]
+    newc.body = body
+    Z().visit(newc)
+    if any(isinstance(x, ast.Name) and x.id == '__devirt_noop' for x in ast.walk(newc)):
+        raise _Skip
+    newc.bases = [b for b in c.bases if not (isinstance(b, ast.Name) and b.id in names[1:])]
+    # private class-level constants that nothing assigns: substitute into the methods
+    consts = {}
+    for st in newc.body:
+        if isinstance(st, (ast.Assign, ast.AnnAssign)):
+            t = st.targets[0] if isinstance(st, ast.Assign) else st.target
+            v = st.value
+            if isinstance(t, ast.Name) and t.id.startswith('_') and not t.id.startswith('__') and v is not None and isinstance(v, ast.Constant):
+                consts[t.id] = v
+    for x in ast.walk(tree):
+        if isinstance(x, ast.Attribute) and isinstance(x.ctx, (ast.Store, ast.Del)) and x.attr in consts:
+            consts.pop(x.attr, None)
+    # another class of the module deriving from C could override them
+    for k in classes.values():
+        if k is not c and any(isinstance(b, ast.Name) and b.id == c.name for b in k.bases):
+            for key in _members(k):
+                consts.pop(key, None)
+    if consts:
+        class S(ast.NodeTransformer):
+            def visit_Attribute(self, n):
+                self.generic_visit(n)
+                if isinstance(n.ctx, ast.Load) and n.attr in consts and isinstance(n.value, ast.Name) and n.value.id in ('self', 'cls'):
+                    return ast.copy_location(copy.deepcopy(consts[n.attr]), n)
+                return n
+        for st in newc.body:
+            if isinstance(st, ast.FunctionDef):
+                S().visit(st)
+        newc.body = [st for st in newc.body if not (isinstance(st, (ast.Assign, ast.AnnAssign)) and isinstance(st.targets[0] if isinstance(st, ast.Assign) else st.target, ast.Name)
+                                                   and (st.targets[0] if isinstance(st, ast.Assign) else st.target).id in consts)] or [ast.Pass()]
+    i = tree.body.index(c)
+    tree.body[i] = ast.copy_location(newc, c)
+    classes[c.name] = newc
